@@ -171,6 +171,32 @@ impl Prop for C12 {
                 }
                 Err(p) => ctx.fail("C12/panics", format!("{name}({x}) panicked: {p}")),
             }
+            // the negated value right after it, then the value again, and through Into: a conversion
+            // must not depend on the previous one (sign bit flipped, same magnitude bits)
+            if x.c != 0 {
+                ctx.sub();
+                let neg = fpdec::Decimal::new_raw(-x.c, x.s);
+                let seq: Result<(u64, u64, u64), String> = if is32 {
+                    catch(|| {
+                        let b: f32 = neg.into();
+                        let c: f32 = (&d).clone().into();
+                        (f32::from(neg).to_bits() as u64, b.to_bits() as u64, c.to_bits() as u64)
+                    })
+                } else {
+                    catch(|| {
+                        let b: f64 = neg.into();
+                        let c: f64 = (&d).clone().into();
+                        (f64::from(neg).to_bits(), b.to_bits(), c.to_bits())
+                    })
+                };
+                let sign_bit = 1u64 << (fmt.mant_bits + fmt.exp_bits);
+                let want_neg = want_exact ^ sign_bit;
+                match seq {
+                    Ok((n1, n2, p2)) if n1 == want_neg && n2 == want_neg && p2 == want_exact => {}
+                    Ok(o) => ctx.fail("C12/depends-on-previous-conversion", format!("{name}: after converting {x}, converting its negation twice and the value again gives bits {o:x?}; expected ({want_neg:#x}, {want_neg:#x}, {want_exact:#x})")),
+                    Err(p) => ctx.fail("C12/panics", format!("{name}(-{x}) panicked: {p}")),
+                }
+            }
         }
     }
 }
